@@ -77,4 +77,130 @@ theorem rows_sorted_counterexample : ¬ Statement_csr_csr_rows_sorted := by
   revert this
   decide
 
+/-! ### termination ("… and they always return") -/
+
+/-- the region in which `_dot_coo_ndarray` / `_dot_coo_ndarray_sparse` do not return: the dense
+operand has no column and the COO operand stores at least one element -/
+def ExcludedCooNdZeroCols (nCols : Nat) (es : List Ent) : Bool := nCols == 0 && !es.isEmpty
+
+/-- **coo_nd_terminates.** Under the guard `0 < n_cols ∨ nnz = 0` the outer `while` of
+`_dot_coo_ndarray` makes progress in every iteration: `nnz + 1` units of fuel always suffice. -/
+theorem coo_nd_terminates (nRows nCols : Nat) (es : List Ent) (x2 : Dense) (h : 0 < nCols ∨ es = []) :
+    ∃ r, dotCooNd nRows nCols es x2 (es.length + 1) = some r := by
+  rcases h with h | h
+  · exact cooNdRun_terminates nCols es x2 h _ 0 _ (by omega)
+  · subst h; exact ⟨_, rfl⟩
+
+/-- the same for `_dot_coo_ndarray_sparse` -/
+theorem coo_nd_sparse_terminates (nCols : Nat) (es : List Ent) (x2 : Dense) (h : 0 < nCols ∨ es = []) :
+    ∃ r, dotCooNdSparse nCols es x2 (es.length + 1) = some r := by
+  rcases h with h | h
+  · exact cooNdSparseRun_terminates nCols es x2 h _ 0 _ (by omega)
+  · subst h; exact ⟨_, rfl⟩
+
+/-- "`_dot_coo_ndarray` and `_dot_coo_ndarray_sparse` return for every input" … -/
+def Statement_coo_nd_always_returns : Prop :=
+  ∀ (nRows nCols : Nat) (es : List Ent) (x2 : Dense),
+    (∃ fuel, dotCooNd nRows nCols es x2 fuel ≠ none) ∧ (∃ fuel, dotCooNdSparse nCols es x2 fuel ≠ none)
+
+/-- … fails on the whole excluded region: no amount of fuel is enough (the outer index never advances). -/
+theorem coo_nd_diverges (nRows : Nat) (es : List Ent) (x2 : Dense) (h : ExcludedCooNdZeroCols 0 es = true) :
+    (∀ fuel, dotCooNd nRows 0 es x2 fuel = none) ∧ (∀ fuel, dotCooNdSparse 0 es x2 fuel = none) := by
+  have hl : 0 < es.length := by
+    cases es with
+    | nil => simp [ExcludedCooNdZeroCols] at h
+    | cons _ _ => simp
+  exact ⟨fun fuel => cooNdRun_zero_cols es x2 fuel 0 _ hl, fun fuel => cooNdSparseRun_zero_cols es x2 fuel 0 _ hl⟩
+
+/-- the witness `sparse.dot(COO(eye(3)), zeros((3, 0)))`: the kernel is handed `x2 = zeros((0, 3))` -/
+def eye3 : List Ent := [(0, 0, 1), (1, 1, 1), (2, 2, 1)]
+theorem coo_nd_always_returns_counterexample : ¬ Statement_coo_nd_always_returns := by
+  intro h
+  obtain ⟨⟨fuel, hf⟩, _⟩ := h 3 0 eye3 []
+  exact hf ((coo_nd_diverges 3 eye3 [] (by decide)).1 fuel)
+
+/-- outside the excluded region both kernels return -/
+theorem coo_nd_always_returns_partial (nRows nCols : Nat) (es : List Ent) (x2 : Dense)
+    (h : ExcludedCooNdZeroCols nCols es = false) :
+    (∃ fuel, dotCooNd nRows nCols es x2 fuel ≠ none) ∧ (∃ fuel, dotCooNdSparse nCols es x2 fuel ≠ none) := by
+  have hg : 0 < nCols ∨ es = [] := by
+    cases es with
+    | nil => exact Or.inr rfl
+    | cons _ _ =>
+      left
+      simp [ExcludedCooNdZeroCols] at h
+      omega
+  obtain ⟨r1, h1⟩ := coo_nd_terminates nRows nCols es x2 hg
+  obtain ⟨r2, h2⟩ := coo_nd_sparse_terminates nCols es x2 hg
+  exact ⟨⟨_, by rw [h1]; simp⟩, ⟨_, by rw [h2]; simp⟩⟩
+
+/-- non-vacuity: a 2-column case returns with the product `eye(3) @ [[1,2],[3,4],[5,6]]` (`x2` is its transpose) -/
+example : dotCooNd 3 2 eye3 [[1, 3, 5], [2, 4, 6]] 4 = some [[1, 2], [3, 4], [5, 6]]
+    ∧ ExcludedCooNdZeroCols 2 eye3 = false ∧ ExcludedCooNdZeroCols 0 eye3 = true := by decide
+
+/-- "`_dot_csr_csr` never raises" … -/
+def Statement_csr_csr_no_error : Prop := ∀ (nRow nCol : Nat) (A B : CSR), ∃ o, dotCsrCsr nRow nCol A B = .ok o
+
+/-- … fails for a right operand without columns: the tail `len(indices) // n_col` divides by zero
+(`GCXS(eye(3)) @ GCXS(zeros((3, 0)))` raises ZeroDivisionError). -/
+theorem csr_csr_no_error_counterexample : ¬ Statement_csr_csr_no_error := by
+  intro h
+  obtain ⟨o, ho⟩ := h 3 0 { indptr := [0, 1, 2, 3], indices := [0, 1, 2], data := [1, 1, 1] }
+    { indptr := [0, 0, 0, 0], indices := [], data := [] }
+  have e : dotCsrCsr 3 0 { indptr := [0, 1, 2, 3], indices := [0, 1, 2], data := [1, 1, 1] }
+    { indptr := [0, 0, 0, 0], indices := [], data := [] } = .error .zeroDiv := by rfl
+  rw [e] at ho
+  cases ho
+
+/-- with at least one output column `_dot_csr_csr` returns -/
+theorem csr_csr_no_error_partial (nRow nCol : Nat) (A B : CSR) (h : 0 < nCol) : ∃ o, dotCsrCsr nRow nCol A B = .ok o := by
+  unfold dotCsrCsr
+  have : ¬ nCol = 0 := by omega
+  simp only [this, if_false]
+  split <;> exact ⟨_, rfl⟩
+
+/-! ### the `_dot` dispatch -/
+
+/-- **dot_dispatch_total.** Every combination of operand kinds (COO, GCXS with either compressed
+axis, ndarray) on either side, default compressed axis, size comparison and requested return type
+reaches a kernel branch; the final `raise TypeError` is unreachable for these kinds. -/
+theorem dot_dispatch_total (ka kb : Kind) (cd : CA) (big : Bool) (rt : RT) :
+    (dotDispatch ka kb cd big rt).isSome = true := by
+  rcases ka with _ | ⟨_ | _⟩ | _ <;> rcases kb with _ | ⟨_ | _⟩ | _ <;> cases cd <;> cases big <;> cases rt <;> rfl
+
+/-- the `a.nbytes > b.nbytes` test of the GCXS·GCXS branch cannot influence the plan: `b` was already
+converted to `a`'s compressed axes -/
+theorem dot_dispatch_nbytes_irrelevant (ka kb : Kind) (cd : CA) (rt : RT) :
+    dotDispatch ka kb cd true rt = dotDispatch ka kb cd false rt := by
+  rcases ka with _ | ⟨_ | _⟩ | _ <;> rcases kb with _ | ⟨_ | _⟩ | _ <;> cases cd <;> cases rt <;> rfl
+
+/-- **dot_dispatch_return_type.** Whenever a return type is requested and at least one operand is
+sparse, the plan ends in an array of that type. -/
+theorem dot_dispatch_return_type (ka kb : Kind) (cd : CA) (big : Bool) (rt : RT) (p : Plan)
+    (hs : ka.isSparse || kb.isSparse = true) (hrt : rt ≠ .none) (hp : dotDispatch ka kb cd big rt = some p) :
+    p.outKind = rt := by
+  rcases ka with _ | ⟨_ | _⟩ | _ <;> rcases kb with _ | ⟨_ | _⟩ | _ <;> cases cd <;> cases big <;> cases rt <;>
+    first
+    | (exact absurd rfl hrt)
+    | (exact absurd hs (by decide))
+    | (cases hp; rfl)
+
+/-- every plan whose kernel writes sums without testing them asks the constructor to prune -/
+theorem dot_dispatch_prunes (ka kb : Kind) (cd : CA) (big : Bool) (rt : RT) (p : Plan)
+    (hp : dotDispatch ka kb cd big rt = some p) (hz : p.kernel.writesZeros = true) : p.prune = true := by
+  rcases ka with _ | ⟨_ | _⟩ | _ <;> rcases kb with _ | ⟨_ | _⟩ | _ <;> cases cd <;> cases big <;> cases rt <;>
+    cases hp <;> first | rfl | (exact absurd hz (by decide))
+
+/-- **transpose_trick.** The orientation `swapT` is sound: `(a @ b)[i,k] = (bᵀ @ aᵀ)[k,i]`. -/
+theorem transpose_trick (n : Nat) (a b : Nat → Nat → Int) (i k : Nat) :
+    matmulSpec n a b i k = matmulSpec n (tr b) (tr a) k i := by
+  unfold matmulSpec tr
+  congr 1
+  apply List.map_congr_left
+  intro j _
+  exact Int.mul_comm _ _
+
+example : dotDispatch .nd (.gcxs .c0) .c0 false .coo
+    = some { kernel := .cscNdSparse, orient := .swapT, resultCA := some .c0, prune := true, post := .tocoo } := by decide
+
 end SparseV.C04
